@@ -6,7 +6,7 @@
    extension with SHA-1 of the certificate's key, whether connectFoundService compares the
    presented with the dialled SKI.  SHA-1 is a parameter [sha1]; the only thing assumed of
    it, where anything is, is [sha1_spec sha1] (20 output bytes). *)
-From Ship Require Import Base Ski Cert CertProofs.
+From Ship Require Import Base Ski Sha1 Cert CertProofs Sha1Proofs.
 From ShipGen Require Import CertTable.
 
 (* the regenerated constants and the statement order of ServeHTTP / connectFoundService are the
@@ -132,6 +132,26 @@ Proof.
   exact (outbound_monitor sha1 Hs code_config dialled certs code_config_gen_ok).
 Qed.
 Print Assumptions C02_outbound_monitor.
+
+(* the executable SHA-1 of Sha1.v — the one bin/check compares with Go's crypto/sha1 on every key
+   of every case, and evaluates the monitors with — meets [sha1_spec], so the theorems above
+   apply to it without any hypothesis left *)
+Theorem C02_executable_sha1_meets_spec : sha1_spec sha1_impl.
+Proof. exact sha1_impl_spec. Qed.
+Print Assumptions C02_executable_sha1_meets_spec.
+
+Theorem C02_monitors_with_executable_sha1 :
+  (forall ver offered certs,
+     mon_inbound sha1_impl ver offered certs (accept_inbound sha1_impl code_config ver offered certs) = []) /\
+  (forall dialled certs,
+     mon_outbound sha1_impl dialled certs (accept_outbound sha1_impl code_config dialled certs) = []) /\
+  (forall l x, sha1_of_table (digest_table l) x = sha1_impl x).
+Proof.
+  exact (conj (fun v o c => inbound_monitor sha1_impl sha1_impl_spec code_config v o c code_config_gen_ok)
+        (conj (fun d c => outbound_monitor sha1_impl sha1_impl_spec code_config d c code_config_gen_ok)
+              sha1_of_digest_table)).
+Qed.
+Print Assumptions C02_monitors_with_executable_sha1.
 
 (* no slack: with SkiFromCertificate checking the length only (the pinned tree, before commit
    "fix: bind the SKI to the certificate's public key"), a certificate claiming a SKI that is
